@@ -1663,3 +1663,215 @@ def containment_test(F, e):
         if r[0] == 'bin' and r[1] == 'Ge' and r[2] == prm and r[3][0] == 'const' and isinstance(r[3][1], (int, float)) and -1e-8 <= r[3][1] <= 0:
             return src[2][0], src[2][1]
     return None
+
+
+# ---------------------------------------------------------------------------------------------------------------- dimension guards
+def _dim_atom(e):
+    """a dimension expression -> canonical atom: ('rows', X) / ('cols', X) of an affine function X, ('dim', P, i) of a plain array P"""
+    from ..mir import strip_sites as s_
+    e = s_(e)
+    while e[0] == 'cast':
+        e = e[1]
+    if is_call(e, 'AffFuncBase::indim') and len(e[2]) == 1:
+        return ('cols', e[2][0])
+    if is_call(e, 'AffFuncBase::outdim', 'AffFuncBase::n_constraints') and len(e[2]) == 1:
+        return ('rows', e[2][0])
+    X = axis = None
+    if e[0] == 'index' and is_call(e[1], 'ArrayBase::shape') and e[2][0] == 'const':
+        X, axis = e[1][2][0], e[2][1]
+    elif e[0] == 'field' and is_call(e[1], 'ArrayBase::dim') and str(e[2]).isdigit():
+        X, axis = e[1][2][0], int(e[2])
+    elif is_call(e, 'ArrayBase::nrows'):
+        X, axis = e[2][0], 0
+    elif is_call(e, 'ArrayBase::ncols'):
+        X, axis = e[2][0], 1
+    elif is_call(e, 'ArrayBase::len') and len(e[2]) == 1:
+        X, axis = e[2][0], 0
+    elif is_call(e, 'ArrayBase::len_of') and e[2][1][0] == 'agg' and e[2][1][2] and e[2][1][2][0][0] == 'const':
+        X, axis = e[2][0], e[2][1][2][0][1]
+    if X is None:
+        return None
+    sh = _shape(X)
+    if sh is not None and axis < len(sh[0]):
+        return sh[0][axis]
+    return ('dim', X, axis)
+
+
+def _shape(e, req=None):
+    """symbolic shape of an ndarray expression -> (tuple of dimension atoms, requirements collected) or None; `req` collects the equalities
+    the expression needs to be well-shaped (a set of frozensets of two atoms)"""
+    from ..mir import strip_sites as s_
+    e = s_(e)
+    if req is None:
+        req = set()
+
+    def need(a, b):
+        if a != b:
+            req.add(frozenset((a, b)))
+    if e[0] == 'field' and e[2] == 'mat':
+        return (('rows', e[1]), ('cols', e[1])), req
+    if e[0] == 'field' and e[2] == 'bias':
+        return (('rows', e[1]),), req
+    if is_call(e, 'AffFuncBase::matrix_view') and len(e[2]) == 1:
+        return (('rows', e[2][0]), ('cols', e[2][0])), req
+    if is_call(e, 'AffFuncBase::bias_view') and len(e[2]) == 1:
+        return (('rows', e[2][0]),), req
+    if e[0] == 'param':
+        return None
+    if is_call(e, 'ArrayBase::view', 'ArrayBase::to_owned', 'ArrayBase::clone', 'Clone::clone', 'ArrayBase::mapv', 'ArrayBase::map', 'Neg::neg',
+               'ArrayBase::into_owned', 'ArrayBase::view_mut') and e[2]:
+        return _shape(e[2][0], req)
+    if is_call(e, 'ArrayBase::t', 'ArrayBase::reversed_axes') and len(e[2]) == 1:
+        r = _shape(e[2][0], req)
+        return (tuple(reversed(r[0])), req) if r else None
+    if is_call(e, 'ArrayBase::dot') and len(e[2]) == 2:
+        a, b = _shape_or_param(e[2][0], req), _shape_or_param(e[2][1], req)
+        if a is None or b is None:
+            return None
+        need(a[-1], b[0])
+        return (a[:-1] + b[1:]), req
+    if is_call(e, 'Add::add', 'Sub::sub') and len(e[2]) == 2:
+        a, b = _shape_or_param(e[2][0], req), _shape_or_param(e[2][1], req)
+        if a is None or b is None or len(a) != len(b):
+            return None
+        for x, y in zip(a, b):
+            need(x, y)
+        return a, req
+    if is_call(e, 'AffFuncBase::apply') and len(e[2]) == 2:
+        v = _shape_or_param(e[2][1], req)
+        if v is None or len(v) != 1:
+            return None
+        need(('cols', e[2][0]), v[0])
+        return (('rows', e[2][0]),), req
+    if is_call(e, 'concatenate', 'ndarray::concatenate') and len(e[2]) == 2:
+        ax, arr = e[2]
+        if not (ax[0] == 'agg' and ax[2] == (('const', 0),) and arr[0] == 'agg'):
+            return None
+        shapes = [_shape_or_param(x, req) for x in arr[2]]
+        if any(x is None for x in shapes) or len(set(len(x) for x in shapes)) != 1:
+            return None
+        for x in shapes[1:]:
+            for p, q in zip(shapes[0][1:], x[1:]):
+                need(p, q)
+        return (('sum',) + tuple(x[0] for x in shapes),) + shapes[0][1:], req
+    return None
+
+
+def _shape_or_param(e, req):
+    from ..mir import strip_sites as s_
+    e = s_(e)
+    r = _shape(e, req)
+    if r is not None:
+        return r[0]
+    if e[0] == 'param':
+        rank = _PARAM_RANK.get(e[1])
+        if rank is None:
+            return None
+        return tuple(('dim', e, i) for i in range(rank))
+    return None
+
+
+_PARAM_RANK = {}
+
+
+def _set_param_ranks(b):
+    _PARAM_RANK.clear()
+    import re as _re
+    for i, n in enumerate(b.arg_names()):
+        m = _re.search(r'ArrayBase<[^,]*, ndarray::Dim<\[usize; (\d+)\]>>', b.local_ty(i + 1) or '')
+        if m:
+            _PARAM_RANK[n] = int(m.group(1))
+
+
+# documented preconditions that make two dimensions equal: the matrix handed to apply_post is the inverse of an invertible map, hence square
+SQUARE_BY_CONTRACT = {'AffFuncBase::apply_post': [((('dim', ('param', 'inverse_mat'), 0)), (('dim', ('param', 'inverse_mat'), 1)))]}
+
+
+def check_dimension_guards(ctx, rule, names):
+    """A kernel that asserts `dim X == dim Y` before it builds its result must assert an equality the result really needs (columns of the
+    left factor = rows of the right one for a product, equal column counts for rows stacked on each other, ..): a guard on any other pair of
+    dimensions rejects compatible arguments and lets incompatible ones through to a panic inside ndarray."""
+    from ..mir import strip_sites as s_
+    for q in names:
+        bodies = [b for b in ctx.facts.bodies if b.qname == q]
+        if not bodies:
+            ctx.lost(rule, q)
+            continue
+        for b in bodies:
+            R = Resolver(b)
+            site = q + '#dimension-guard'
+            rets = R.return_expr()
+            if len(rets) != 1 or not is_call(rets[0][1], 'AffFuncBase::from_mats'):
+                ctx.undecided(rule, site, 'result is not one from_mats(..) expression', b.span)
+                continue
+            bb, ret = rets[0]
+            req = set()
+            _set_param_ranks(b)
+            ok_shape = all(_shape(x, req) is not None for x in ret[2])
+            guards = []
+            for l in literals(b, R, bb):
+                for op, x, y in cmp_facts([l]):
+                    if op != 'Eq':
+                        continue
+                    a, c = _dim_atom(x), _dim_atom(y)
+                    if a is not None and c is not None:
+                        guards.append((a, c, l))
+            if not guards:
+                ctx.undecided(rule, site, 'no dimension guard found on the path to the result', b.span)
+                continue
+            if not ok_shape:
+                ctx.undecided(rule, site, 'shape of the result expression not derivable', b.span)
+                continue
+            # closure of the requirements under transitivity
+            cls = {}
+
+            def find(x):
+                while cls.get(x, x) != x:
+                    x = cls[x]
+                return x
+            for pr in list(req) + [frozenset(x) for x in SQUARE_BY_CONTRACT.get(q, [])]:
+                a, c = tuple(pr)
+                cls[find(a)] = find(c)
+            # a plain-array parameter may be a vector or a matrix: ('dim', P, 1) only matters if someone uses it
+            bad = [(a, c) for a, c, _ in guards if find(a) != find(c)]
+            if bad:
+                ctx.bad(rule, site, 'the guard compares %s, which the result does not need to be equal (it needs %s)' % (
+                    '; '.join('%s with %s' % (fmt(a), fmt(c)) for a, c in bad)[:160],
+                    '; '.join(' = '.join(sorted(fmt(x) for x in pr)) for pr in sorted(req, key=str))[:200]), b.span)
+            else:
+                ctx.ok(rule, site, 'every asserted dimension equality (%d) is one the result needs' % len(guards), b.span)
+
+
+def check_no_unsigned_underflow(ctx, rule, q):
+    """Every subtraction on an unsigned integer in `q` is saturating / checked / wrapping (a call, not the `-` operator), or sits under a
+    comparison that says the left operand is at least the right one."""
+    from ..mir import strip_sites as s_
+    bodies = [b for b in ctx.facts.bodies if b.qname == q]
+    if len(bodies) != 1:
+        ctx.lost(rule, q)
+        return
+    b = bodies[0]
+    R = Resolver(b)
+    site = q + '#no-underflow'
+    bad = []
+    n = 0
+    for bb, j, st in b.stmts():
+        rv = st.get('rv') or {}
+        if st['k'] != 'assign' or rv.get('k') != 'binop' or rv['op'] not in ('Sub', 'SubWithOverflow', 'SubUnchecked') or st.get('exp'):
+            continue
+        ty = b.local_ty(st['place']['local']) or ''
+        if not any(t in ty for t in ('usize', 'u8', 'u16', 'u32', 'u64', 'u128')):
+            continue
+        n += 1
+        l, r = s_(R.operand(rv['l'], bb, j)), s_(R.operand(rv['r'], bb, j))
+        guarded = False
+        for op, x, y in cmp_facts(literals(b, R, bb)):
+            x, y = s_(x), s_(y)
+            if (op in ('Ge', 'Gt') and x == l and y == r) or (op in ('Le', 'Lt') and x == r and y == l):
+                guarded = True
+        if not guarded:
+            bad.append(fmt(('bin', rv['op'], l, r))[:100])
+    if bad:
+        ctx.bad(rule, site, 'unsigned subtraction that can underflow (panics with overflow checks on, wraps to a huge value without): %s' % '; '.join(bad)[:240], b.span)
+    else:
+        ctx.ok(rule, site, 'no unguarded unsigned `-` (%d guarded, the others saturating / checked calls)' % n, b.span)
